@@ -136,6 +136,14 @@ def gen_misc(rng, nsel, maxlen):
     for tp, nproc, ia, to, mult in itertools.product('TF', ['0', '1', '2', '5'], 'FT', ['N', '0', '-1', '1', '30'],
                                                      ['N', '0', '-1000', '125', '500', '1000', '2000']):
         cases.append(['runner', [tp, nproc, ia, to, mult]])
+    # the option layer: -j values (non-positive ones must be refused) and the environment variables
+    for n in list(range(-20, 21)) + [-17, 100, 4096, -1000]:
+        cases.append(['jobsopt', [str(n)]])
+    envs = ['U', '0', '1', '3', '16', '-1', '-7', 'junk', '', '1.5', '0x4']
+    for a in envs:
+        for b in envs:
+            for cpus in ('1', '16'):
+                cases.append(['workers', [a, b, cpus]])
     nex = len(cases)
     for _ in range(nsel):
         cases.append(gen_select_one(rng))
@@ -151,8 +159,17 @@ def model_case(case, aux):
         return ('classify', [p, xf, xe if xe != '' else '0', aux, w, rc])
     if fn == 'tally':
         return ('tally', a)
-    if fn in ('select', 'suite', 'slice'):
+    if fn in ('select', 'suite', 'slice', 'jobsopt'):
         return (fn, a)
+    if fn == 'workers':
+        def ev(x):
+            if x == 'U':
+                return 'U'
+            try:
+                return str(int(x))          # what Python's int() accepts is an integer for meson too
+            except ValueError:
+                return 'G'
+        return (fn, [ev(a[0]), ev(a[1]), a[2]])
     if fn == 'runner':
         return None   # two model calls, handled separately
     raise KeyError(fn)
@@ -191,6 +208,11 @@ def oracle_case(fn, a, ri, slice_of):
         bad = O.trace_clauses([c == 'T' for c in a[0]], int(a[1]), evl, cut)
         bad += O.tally_clauses([O.NAME[r] for r in results], [int(x) for x in cnts.split(',')], int(ex))
         out += [('scheduler run %s: %s' % (json.dumps(a), b), {'events': evs.split(SEP2), 'failure': b}) for b in bad]
+    if fn == 'jobsopt' and int(a[0]) >= 1 and ri != a[0]:
+        out.append(('`meson test --num-processes %s` is parsed as %s, a positive number of jobs must be accepted as it is' % (a[0], ri), {'got': ri}))
+    if fn == 'workers' and not (ri.isdigit() and int(ri) >= 1):
+        out.append(('MESON_TESTTHREADS=%r MESON_NUM_PROCESSES=%r (U = unset) with %s CPUs give %s jobs by default; at least 1 is needed for `meson test` to start'
+                    % (a[0], a[1], a[2], ri), {'got': ri}))
     if fn == 'select' and not ri.startswith('EXC'):
         tests = []
         for t in a[6:]:
